@@ -93,7 +93,7 @@ func judgeScopeVerdictOpt(c *Ctx, conf *cfg.Config, run *cli.Run, files map[stri
 	}
 	sec := run.Rep.Section("Scope")
 	if sec == nil {
-		c.Violate("scope-section-missing", "the report has no Scope step\n"+run.Res.Stdout, files)
+		c.Inconclusive("the report has no Scope step: scope diagnostics cannot be attributed")
 		return
 	}
 	got := map[string]bool{}
@@ -234,7 +234,7 @@ func checkC05(c *Ctx) error {
 		run := cli.Do(w, "", nil, dir, out, args...)
 		files := map[string]string{"input/in.yaml": yaml, "stdout.txt": run.Res.Stdout}
 		for _, b := range run.Contract() {
-			c.Violate("cli-contract:"+sigWords(b), b+"\n"+run.Res.Stdout+run.Res.Stderr, files)
+			c.Side("C10,C12", "cli-contract:"+sigWords(b), b+"\n"+run.Res.Stdout+run.Res.Stderr, files)
 		}
 		nontriv := len(j.conf.Services) >= 2 && strings.Contains(yaml, "scope:") && (strings.Contains(yaml, "@s") || strings.Contains(yaml, "!tagged"))
 		c.Eval("v:"+yaml, nontriv)
